@@ -4094,6 +4094,15 @@ class QapRun:
                  "__step__": lambda *a: None, "__enter__": lambda *a: None, "__leave__": lambda *a: None,
                  "__caught__": lambda k, e, m=(): self.caught.append((k, type(e).__name__, str(e)[:80])),
                  "__CAUGHT__": Exception, "__set_ie__": lambda v: None, "__cv__": lambda c: 0}
+
+            def ckpt():
+                # an explicit backend.prove() in the middle of the script; the one at exit follows
+                fs.reader = "prove"
+                try:
+                    b.prove()
+                finally:
+                    fs.reader = "tracer"
+            g["__prove__"] = ckpt
             err = io.StringIO()
             with contextlib.redirect_stderr(err), contextlib.redirect_stdout(err):
                 try:
@@ -4458,6 +4467,12 @@ class C12(TraceCheck):
             case["edit_fault"] = rng.choice([None, ["qapgenf", 1], ["qapgenf", 2], ["qapprove", 1]])
             case["second_run"] = False
             case["faults"] = {"bufcap": faults["bufcap"]}
+        r4 = _random.Random("ckpt/%s" % P.plan_digest(plan))
+        if r4.random() < 0.15 and not case["second_run"] and not case.get("edited_subqaps"):
+            # history: an explicit prove() in the middle of the script, the one at exit follows (single run, no
+            # tool faults)
+            plan["body"].insert(r4.randrange(0, len(plan["body"]) + 1), {"s": "checkpoint_prove"})
+            case["faults"] = {"bufcap": faults.get("bufcap", 8192)}
         return case
 
     def run(self, case):
